@@ -79,6 +79,7 @@ def run(P, C, tier):
          "serialisation of read and write of one row: same actor=%s, UPDATE conditional on the read version=%s with changed-row check=%s, per-row lock=%s -- two in-flight "
          "mutations of one row both read version v, both are acknowledged, the second UPDATE overwrites the first one's other fields" % (same_actor, conditional, checked, row_lock))
     r3_room_definitions(P, C, "R3")
+    r4_noop_writes_nothing(P, C, "R4")
 
 
 def r3_room_definitions(P, C, R, announce=False):
@@ -123,3 +124,55 @@ def r3_room_definitions(P, C, R, announce=False):
              "add_room installs %s" % ("the result of validate_mutation evaluated in the %s arm against the actor's current rooms" % arm if revalidated and from_validation else
                                        "a room that was computed before the write was queued (carried in the write message): acknowledged changes of a concurrently committed mutation of the same room are overwritten in memory"))
     C.floor(R, "room installs after a committed room mutation", n, 2)
+
+
+def r4_noop_writes_nothing(P, C, R):
+    """The row of an update is rewritten WHOLE from the copy read on the reader pool (known finding R1): every mutation that rewrites
+    a row can erase a concurrent acknowledged assignment. A mutation that changes nothing must therefore not rewrite the row: the
+    `changed` flag that decides `node = None` may be raised only where a change was recorded in the same step (an edge pushed to
+    edge_insertions / edge_deletions, a value inserted in the JSON object), or under a test that something exists to change."""
+    C.rule(R, "a mutation that changes nothing writes nothing: in get_mutate_query every `changed = true` follows, in the same arm, a recorded change "
+              "(Vec::push of an edge insertion/deletion, insert of a field value) or is guarded by a non-emptiness test; otherwise a no-op "
+              "(`field: null` on an empty reference) rewrites the whole row from its earlier read and erases a concurrent acknowledged assignment")
+    try:
+        b = P.body("MutationQuery::get_mutate_query")
+    except mir.MissingAnchor as e:
+        C.anchor_missing(R, "get_mutate_query", e)
+        return
+    C.saw(b)
+    # the flag: the bool variable whose `false` guards `node_to_mutate.node = None`
+    flag = None
+    for bi in sorted(b.live_blocks()):
+        for si, st in enumerate(b.blocks[bi]["s"]):
+            rv = st["rv"]
+            dt = mir.strip_refs(b.def_term(bi, si, rv, 0)) if st["lhs"][-1:] == [".node"] else ("unknown",)
+            if dt[0] == "aggr" and dt[3] == "None":
+                for s_, vals, term in b.guards(bi):
+                    atom, truth = mir.cond_atoms(term, vals)
+                    atom = mir.strip_refs(atom)
+                    if atom[0] == "var" and len(atom) > 2 and b.locals[atom[2]] == "bool" and truth is False:
+                        flag = atom[2]
+    if flag is None:
+        C.ob(R, "noop-flag", False, b.loc(), "no boolean whose false value leads to `node = None` (the row of an unchanged update is not written)")
+        return
+    change_ops = [bi for bi, t in b.live_calls() if re.search(r"Vec<.*>::push$|Vec::push$|Map<.*>::insert$|Map::insert$|::insert$", callee_name(t))
+                  and re.search(r"edge_insertions|edge_deletions|serde_json|Map<", term_str(b.call_args(bi, expand_vars=True)[0]) + " " + callee_name(t))]
+    n = 0
+    for (bi, si, rv, lhs) in b.defs().get(flag, ()):
+        if bi not in b.live_blocks() or si is None or len(lhs) != 1:
+            continue
+        if not (rv["r"] == "use" and "k" in rv["o"] and rv["o"]["k"].get("v") is True):
+            continue
+        n += 1
+        doms = b.dom_chain(bi)
+        follows = [c for c in change_ops if c in doms and c != bi]
+        guarded = False
+        for s_, vals, term in b.guards(bi, expand_vars=True):
+            atom, truth = mir.cond_atoms(term, vals)
+            ts = term_str(atom)
+            if re.search(r"is_empty", ts) and truth is False or (atom[0] == "bin" and atom[1] in ("Gt", "Ne", "Lt") and re.search(r"len\(", ts) and truth is True):
+                guarded = True
+        ok = bool(follows) or guarded
+        C.ob(R, "changed-flag#%d" % (n - 1), ok, b.loc(bi), "raised after a recorded change in the same arm: %s; under a non-emptiness test: %s%s" % (
+            [b.loc(c) for c in follows[:2]] or "no", guarded, "" if ok else " -- raised although nothing may have changed: the row is rewritten from its earlier read"))
+    C.floor(R, "assignments of the changed flag", n, 4)
